@@ -669,6 +669,47 @@ def native_owner_witness(which):
         wg = [gf[k] for k, n in enumerate(names) if n not in Af]
         if not np.isclose(a_, b_) or not np.isclose(s_, b_) or len(g_) != len(wg) or not np.allclose(g_, wg):
             return {'what': 'after fix_parameters calls %s: value %r vs unfixed %r; sensitivities %s vs restricted %s' % (seq, a_, b_, np.asarray(g_).tolist(), wg), 'expected': wg, 'observed': np.asarray(g_).tolist()}
+    if which != 'LogLikelihood':
+        return None
+    # two outputs (the error-model parameters then carry the output name as a prefix): several calls that fix, re-fix and release the same
+    # error-model parameter, with other calls in between
+    class Toy2(Toy):
+        def n_outputs(self):
+            return 2
+
+        def outputs(self):
+            return ['y', 'z']
+
+        def simulate(self, parameters, times):
+            r_ = Toy.simulate(self, parameters, times)
+            if isinstance(r_, tuple):
+                return np.vstack([r_[0], 2.0 * r_[0]]), np.concatenate([r_[1], 2.0 * r_[1]], axis=1)
+            return np.vstack([r_, 2.0 * r_])
+    mk2 = lambda: real.LogLikelihood(Toy2(), [real.GaussianErrorModel(), real.ConstantAndMultiplicativeGaussianErrorModel()], [y, [3.0, 5.0, 4.0]], [t, t])
+    full2 = mk2()
+    names2 = list(full2.get_parameter_names())
+    vals2 = dict(zip(names2, [1.2, 0.4, 0.6, 0.5, 0.3]))
+    e1, e2 = names2[2], names2[-1]
+    for seq in ([{e1: 0.9}, {e1: 0.6}], [{e2: 0.9}, {e2: 0.3}], [{e1: 0.9}, {names2[0]: 1.2}, {e1: 0.6}], [{e2: 0.7}, {e2: None}], [{e1: 0.9, e2: 0.8}, {e1: None}, {e2: 0.3}], [{e2: 0.9}, {e1: 0.6}, {e2: None}, {e2: 0.3}]):
+        ll = mk2()
+        Af = {}
+        for d_ in seq:
+            ll.fix_parameters(d_)
+            Af = {k_: v_ for k_, v_ in {**Af, **d_}.items() if v_ is not None}
+        free = [n_ for n_ in names2 if n_ not in Af]
+        if list(ll.get_parameter_names()) != free or ll.n_parameters() != len(free):
+            return {'what': 'two outputs: after fix_parameters calls %s the likelihood reports %s (n = %s), the free parameters are %s' % (seq, list(ll.get_parameter_names()), ll.n_parameters(), free), 'expected': free, 'observed': list(ll.get_parameter_names())}
+        x = [vals2[n_] for n_ in free]
+        xf = [Af.get(n_, vals2[n_]) for n_ in names2]
+        try:
+            a_, b_ = ll(x), full2(xf)
+            (s_, g_), (sf, gf) = ll.evaluateS1(x), full2.evaluateS1(xf)
+            pa, pb = ll.compute_pointwise_ll(x), full2.compute_pointwise_ll(xf)
+        except Exception as ex:
+            return {'what': 'two outputs: after fix_parameters calls %s evaluation raises %r' % (seq, ex), 'expected': 'values', 'observed': repr(ex)}
+        wg = [gf[k_] for k_, n_ in enumerate(names2) if n_ not in Af]
+        if not (np.isclose(a_, b_) and np.isclose(s_, b_) and np.allclose(pa, pb) and len(g_) == len(wg) and np.allclose(g_, wg)):
+            return {'what': 'two outputs: after fix_parameters calls %s the value is %r; the unfixed likelihood at the substituted vector %s gives %r' % (seq, float(a_), xf, float(b_)), 'expected': float(b_), 'observed': float(a_)}
     return None
 
 
